@@ -52,17 +52,20 @@ var c20FailKinds = []struct {
 	tok    string
 	valid  bool // prints a valid configuration first
 	ending string
+	raw    string // != "": the whole content of the file (a run that cannot be started; such a file cannot log its invocation)
 }{
-	{"exit3:none", false, "exit 3"},
-	{"exit1:valid", true, "exit 1"},
-	{"sig9:none", false, "echo boom >&2\nkill -9 $$"},
-	{"sig9:valid", true, "kill -9 $$"},
-	{"sig15:valid", true, "kill -TERM $$"},
-	{"exit255:valid", true, "exit 255"},
-	{"sig11:valid", true, "ulimit -c 0\nkill -SEGV $$"},
-	{"sig6:valid", true, "ulimit -c 0\nkill -ABRT $$"},
-	{"exit126:none", false, "exit 126"},
-	{"sig1:valid", true, "kill -HUP $$"},
+	{"exit3:none", false, "exit 3", ""},
+	{"exit1:valid", true, "exit 1", ""},
+	{"sig9:none", false, "echo boom >&2\nkill -9 $$", ""},
+	{"sig9:valid", true, "kill -9 $$", ""},
+	{"sig15:valid", true, "kill -TERM $$", ""},
+	{"exit255:valid", true, "exit 255", ""},
+	{"sig11:valid", true, "ulimit -c 0\nkill -SEGV $$", ""},
+	{"sig6:valid", true, "ulimit -c 0\nkill -ABRT $$", ""},
+	{"exit126:none", false, "exit 126", ""},
+	{"sig1:valid", true, "kill -HUP $$", ""},
+	{"nostart-no-interpreter:none", false, "", "#!/nonexistent/interpreter\necho '{\"configVersion\":\"v1\",\"onStartup\":1}'\n"},
+	{"nostart-exec-format:none", false, "", "this file has an execute bit but is neither a script with an interpreter line nor a binary\n"},
 }
 
 var c20FileNames = []string{"a", "b", "c", "hook", "hook.sh", "a.sh", "a-b", "a0", "a.yaml", "b.json", "r.md", "n.txt",
@@ -150,6 +153,11 @@ func (e *c20Env) out(nd *c20Node) c20Out {
 }
 
 func (e *c20Env) script(rel, logPath string, nd *c20Node) string {
+	if nd.kind == "fail" {
+		if fk := c20FailKinds[nd.variant%len(c20FailKinds)]; fk.raw != "" {
+			return fk.raw
+		}
+	}
 	b := &strings.Builder{}
 	if nd.logAs != "" {
 		rel = nd.logAs
@@ -578,7 +586,7 @@ func (e *c20Env) classify(c *Case, rootName string, nodes []*c20Node) {
 }
 
 func runC20(r *Run) {
-	r.Rule = "random directory trees materialised on disk (hooks-directory names incl. lib/.hooks/.git, depth <= 4, 0-7 entries per directory from pools of 32 file names and 18 directory names so that names collide across directories; modes from a biased pool plus uniformly random 9-bit modes incl. group/other-only execute bits; excluded extensions, hidden files, lib/hidden directories at any depth, byte-order traps such as a.sh vs a/b); 9 % of the files are symbolic links to an executable script outside the hooks directory (absolute or relative link text; Lstat shows a non-directory with mode 0777), corpus: the ConfigMap-volume layout hook.sh -> ..data/hook.sh, ..data -> ..<timestamp>/; every file is a bash script that logs its invocation and prints a valid config, an invalid one or whose run does not complete successfully in one of 10 ways (exit 3 / 126 without output, exit 1 / 255 after a complete valid configuration, killed by SIGKILL without output, killed by SIGKILL / SIGTERM / SIGSEGV / SIGABRT / SIGHUP after a complete valid configuration). The last path element of the manager's TempDir is chosen per case: shell-operator, tmp, the name of a visible non-lib sub-directory of the tree (50 %), of a file of the tree, or of the hooks directory itself (the pools of directory names contain tmp, shell-operator, hooks). Configurations come from a catalogue with FIXED verdicts (calibrated once on the unchanged tree, never asked of the code under test): 71 invalid documents with one defect each (bad crontab of several kinds, unknown field, wrong type, unsupported configVersion, malformed label/field/name selector, unknown or ambiguous includeSnapshotsFrom, ambiguous group, bad settings, admission/conversion defects; 20 of them in the legacy v0 format without configVersion) and 14 valid ones, each printed as JSON and as YAML, 10 malformed outputs, plus generated schedule lists (v0 or v1, JSON or YAML, 1-4 entries, crontabs from calibrated valid/invalid pools). The hooks directory is given in one of five spellings (canonical, trailing slash, /./, name/../name, relative to the current directory) to the real RequireExistingDirectory (as bootstrap.go does), whose answer goes to the real RecursiveGetExecutablePaths, then real hook.Manager.Init. 35% of the random cases perform 2-3 starts in the same process: between starts 1-3 edits (file added / removed / chmod +x / chmod -x / rewritten, sub-directory added / removed; 75% strictly below a sub-directory) or a rebuild of the whole tree at the same path, optionally with the modification time of the hooks directory or of every directory put back; each start has its own tree line and oracles. Fixed-index blocks: every catalogue entry alone between two good hooks (10000+, 20000+), generated schedule lists (30000+). Thorough adds the exhaustive scope {3 root names} x {directory chains of length 0-2 over s/lib/.g} x {8 file names} x {5 modes} plus all 512 modes for one file. Non-trivial: >= 2 files of which some but not all carry an execute bit, or a non-default hooks-directory name with an executable file, or a catalogue / multi-start corpus case; distinct = distinct tree lines."
+	r.Rule = "random directory trees materialised on disk (hooks-directory names incl. lib/.hooks/.git, depth <= 4, 0-7 entries per directory from pools of 32 file names and 18 directory names so that names collide across directories; modes from a biased pool plus uniformly random 9-bit modes incl. group/other-only execute bits; excluded extensions, hidden files, lib/hidden directories at any depth, byte-order traps such as a.sh vs a/b); 9 % of the files are symbolic links to an executable script outside the hooks directory (absolute or relative link text; Lstat shows a non-directory with mode 0777), corpus: the ConfigMap-volume layout hook.sh -> ..data/hook.sh, ..data -> ..<timestamp>/; every file is a bash script that logs its invocation and prints a valid config, an invalid one or whose run does not complete successfully in one of 12 ways (exit 3 / 126 without output, exit 1 / 255 after a complete valid configuration, killed by SIGKILL without output, killed by SIGKILL / SIGTERM / SIGSEGV / SIGABRT / SIGHUP after a complete valid configuration, or cannot be started at all: interpreter line naming a missing interpreter, exec format error — such a file cannot write the invocation log, the oracle does not expect it there). The last path element of the manager's TempDir is chosen per case: shell-operator, tmp, the name of a visible non-lib sub-directory of the tree (50 %), of a file of the tree, or of the hooks directory itself (the pools of directory names contain tmp, shell-operator, hooks). Configurations come from a catalogue with FIXED verdicts (calibrated once on the unchanged tree, never asked of the code under test): 71 invalid documents with one defect each (bad crontab of several kinds, unknown field, wrong type, unsupported configVersion, malformed label/field/name selector, unknown or ambiguous includeSnapshotsFrom, ambiguous group, bad settings, admission/conversion defects; 20 of them in the legacy v0 format without configVersion) and 14 valid ones, each printed as JSON and as YAML, 10 malformed outputs, plus generated schedule lists (v0 or v1, JSON or YAML, 1-4 entries, crontabs from calibrated valid/invalid pools). The hooks directory is given in one of five spellings (canonical, trailing slash, /./, name/../name, relative to the current directory) to the real RequireExistingDirectory (as bootstrap.go does), whose answer goes to the real RecursiveGetExecutablePaths, then real hook.Manager.Init. 35% of the random cases perform 2-3 starts in the same process: between starts 1-3 edits (file added / removed / chmod +x / chmod -x / rewritten, sub-directory added / removed; 75% strictly below a sub-directory) or a rebuild of the whole tree at the same path, optionally with the modification time of the hooks directory or of every directory put back; each start has its own tree line and oracles. Fixed-index blocks: every catalogue entry alone between two good hooks (10000+, 20000+), generated schedule lists (30000+). Thorough adds the exhaustive scope {3 root names} x {directory chains of length 0-2 over s/lib/.g} x {8 file names} x {5 modes} plus all 512 modes for one file. Non-trivial: >= 2 files of which some but not all carry an execute bit, or a non-default hooks-directory name with an executable file, or a catalogue / multi-start corpus case; distinct = distinct tree lines."
 	e := &c20Env{euid: os.Geteuid()}
 	e.okOut = c20Expand(c20GoodCfgs, false)
 	e.badOut = append(c20Expand(c20BadCfgs, false), c20Expand(c20BadRaw, true)...)
@@ -705,6 +713,10 @@ func runC20(r *Run) {
 			[]*c20Node{{name: "00-native", mode: 0o755, kind: "fail", variant: 6}, f("zz", 0o755, "ok")}},
 		{"corpus: sub-directories named like the last path element of the temp directory (operator default /tmp/shell-operator)", "shell-operator",
 			[]*c20Node{f("a.sh", 0o755, "ok"), d("shell-operator", f("b.sh", 0o755, "ok")), d("sub", d("shell-operator", d("deep", f("c.sh", 0o755, "ok"))))}},
+		{"corpus: the second hook cannot be started (its interpreter line names a missing interpreter), the third would be fine", "tmp",
+			[]*c20Node{f("a.sh", 0o755, "ok"), {name: "b.rb", mode: 0o755, kind: "fail", variant: 10}, f("z.sh", 0o755, "ok")}},
+		{"corpus: a link to a file with an execute bit that is not executable (exec format error) is the first hook", "tmp",
+			[]*c20Node{{name: "00-data", kind: "fail", variant: 11, link: true, mode: c20LinkMode, tmode: 0o755}, f("zz", 0o755, "ok")}},
 		{"corpus: sub-directory named tmp, temp directory <…>/tmp; a file named like the hooks directory", "tmp",
 			[]*c20Node{d("tmp", f("hook", 0o755, "ok")), d("hooks", f("hooks", 0o755, "ok")), f("tmp.sh", 0o755, "ok")}},
 	}
